@@ -219,6 +219,9 @@ def run(prop, propose=False, replay=None):
             n_inst += 1
             bad = (l, cl, slot) in failset
             feat["prior_fail"] = first_fail is not None and first_fail < l and feat.get("hop", 1) >= 2
+            # C18: did the reference rendering (before the reset) already fail a clause of its own?
+            resets = [i for i, x in enumerate(tr["ev"], 1) if x["a"] == "reset" and i < l]
+            feat["ref_failed"] = bool(resets and any(s_ < resets[-1] for (s_, _, _) in failset))
             feat["ll"] = meta["env"].get("DOCTRANS_LINE_LENGTH", "unset")
             if feat.get("step") == "parse":
                 # did word wrap break the line between "Defaults" and "to" in the text this step parses?
